@@ -15,7 +15,7 @@ func init() {
 				gen.Seq(gen.Lit("1.", "1-"), gen.Lit("18446744073709551616", "18446744073709551617", "0000000000000000000000001", "99999999999999999999", "100000000000000000000", "18446744073709551615", "2", "02")),
 			)
 			m := gen.Magnitudes
-			g = gen.Alt(g, gen.Seq(gen.Lit("1.", "1-", "1a", "1:1.", "1~", "1+"), m), gen.Seq(m, gen.Lit(":1", "", "-1", ".1", "a")), gen.Seq(gen.Lit("1.", "1-", "1a", "1~"), gen.LeadingZeros), gen.Seq(gen.Lit("1.", "1-"), gen.Lit("7", "8", "9", "10", "11")))
+			g = gen.Alt(g, gen.Seq(gen.Lit("1.", "1-", "1a", "1:1.", "1~", "1+"), m), gen.Seq(m, gen.Lit(":1", "", "-1", ".1", "a")), gen.Seq(gen.Lit("1.", "1-", "1a", "1~"), gen.LeadingZeros), gen.Seq(gen.Lit("1.", "1-"), gen.Lit("7", "8", "9", "10", "11")), gen.Seq(gen.Alt(gen.LeadingZeros, gen.Lit("7", "8", "9", "10")), gen.Lit(":1", ":1.0")), gen.Seq(gen.Lit("0:", "1:", ""), gen.Lit("0.9.8", "0.1", "0", "00.1", "0-1", "0.9.8-1")))
 			return g
 		},
 		Valid: ref.DebianValid,
